@@ -454,3 +454,48 @@ def return_guard(repo, spec):
 register_extractor('num_dict', num_dict)
 register_extractor('default_num_dict', default_num_dict)
 register_extractor('return_guard', return_guard)
+
+
+# ---------------------------------------------------------------- membership guard of apply_mod (C01)
+def membership_guard(repo, spec):
+    """the unique `if <test>: ... continue` of `func` whose test mentions the module constant `var`
+    (a '|'-separated string): translated to a boolean function of the residue name.  Accepted
+    shapes of the test (R any expression for the residue, V the constant):
+        not vermouth.molecule.attributes_match(R, {'resname': vermouth.molecule.Choice(V.split('|'))})
+        R['resname'] not in V.split('|')
+    anything else fails closed."""
+    src = Source(repo, spec['file'])
+    const = src.find_assign(spec['var'])
+    if not (isinstance(const.value, ast.Constant) and isinstance(const.value.value, str)):
+        raise TranslateError(f"{spec['file']}: {spec['var']} is not a string literal")
+    names = const.value.value.split('|')
+    fn = src.find_def(spec['func'])
+    hits = [n for n in ast.walk(fn) if isinstance(n, ast.If) and any(isinstance(x, ast.Name) and x.id == spec['var'] for x in ast.walk(n.test))]
+    if len(hits) != 1:
+        raise TranslateError(f"{spec['file']}: expected one `if` testing {spec['var']} in {spec['func']}, found {len(hits)}")
+    node = hits[0]
+    if node.orelse or not isinstance(node.body[-1], ast.Continue) or \
+            any(not (isinstance(s, ast.Continue) or (isinstance(s, ast.Expr) and isinstance(s.value, ast.Call)
+                                                     and ast.unparse(s.value.func).startswith('LOGGER.'))) for s in node.body):
+        raise TranslateError(f"{spec['file']}:{node.lineno}: the guarded branch is not `log; continue`")
+    split = f"{spec['var']}.split('|')"
+    t = node.test
+    ok = False
+    if isinstance(t, ast.UnaryOp) and isinstance(t.op, ast.Not) and isinstance(t.operand, ast.Call):
+        c = t.operand
+        if ast.unparse(c.func) == 'vermouth.molecule.attributes_match' and len(c.args) == 2 and not c.keywords \
+                and ast.unparse(c.args[1]) == "{'resname': vermouth.molecule.Choice(%s)}" % split:
+            ok = True
+    if isinstance(t, ast.Compare) and len(t.ops) == 1 and isinstance(t.ops[0], ast.NotIn) \
+            and isinstance(t.left, ast.Subscript) and ast.unparse(t.left.slice) == "'resname'" and ast.unparse(t.comparators[0]) == split:
+        ok = True
+    if not ok:
+        raise TranslateError(f"{spec['file']}:{node.lineno}: guard `{ast.unparse(t)}` is not a membership test of the residue name in {split}")
+    where, sha = src.stamp(node)
+    text = (f"(* {spec['name']} <- {where} sha256={sha} : skip unless the residue name is one of {spec['var']} *)\n"
+            f"Definition {spec['name']}_names : list string := [{'; '.join(coq_string(n) for n in names)}].\n"
+            f"Definition {spec['name']} (rn : string) : bool := existsb (String.eqb rn) {spec['name']}_names.\n")
+    return text, {'name': spec['name'], 'where': where, 'sha256': sha}
+
+
+register_extractor('membership_guard', membership_guard)
